@@ -126,7 +126,7 @@ def rand_shape(rng, lattice=False, kinds=("sphere", "box", "cylinder", "capsule"
 
 def make_collider(spec, pose):
     from distance3d import colliders
-    A = np.array(pose, dtype=float)
+    A = np.asarray(pose, dtype=float)      # no copy: scenarios decide who shares pose arrays
     if spec["shape"] == "sphere":
         return colliders.Sphere(center=A[:3, 3].copy(), radius=spec["radius"])
     if spec["shape"] == "box":
@@ -199,6 +199,15 @@ def gen_add_part(rng, lattice, nmax, prefix="c"):
     if lattice and n >= 2 and rng.random() < 0.3:
         cols[-1]["spec"] = dict(cols[0]["spec"])
         cols[-1]["pose"] = [list(r) for r in cols[0]["pose"]]   # coincident collider
+    if lattice and n >= 3 and rng.random() < 0.2:
+        # planar scene: the leading colliders are zero-thickness tiles in one plane (floor tiles, a printed circuit):
+        # every AABB that encloses several of them has volume 0 however far it extends
+        k = rng.choice([3, n, n])
+        for i in range(k):
+            A = np.eye(4)
+            A[:3, 3] = [rng.choice([-2, -1, 0, 1, 2, 3]), rng.choice([-2, -1, 0, 1, 2]), 0.5]
+            cols[i]["spec"] = {"shape": "box", "size": [rng.choice([0.5, 1.0]), rng.choice([0.5, 1.0]), 0.0]}
+            cols[i]["pose"] = A.tolist()
     return cols
 
 
@@ -271,6 +280,14 @@ def gen_scenario(rng, stream):
     sc = {"kind": "add", "colliders": cols, "whitelists": gen_whitelists(rng, frames), "steps": steps,
           # initial collider pose differs from the manager's transform in some scenarios
           "stale_init": rng.random() < 0.3, "dup": None}
+    # who owns the pose arrays: "own" (every collider gets its own array), "shared" (all colliders are constructed from
+    # ONE array object, e.g. a module-level identity; implies stale initial poses), "alias_tm" (the collider is built
+    # from the very array that is registered in the transform manager)
+    sc["init_arrays"] = rng.choice(["own", "own", "shared", "alias_tm"])
+    if sc["init_arrays"] == "shared":
+        sc["stale_init"] = True
+    elif sc["init_arrays"] == "alias_tm":
+        sc["stale_init"] = False
     if stream == "M":
         edge = rng.choice(["empty", "single", "dup", "nowl", "empty-other"])
         sc["edge"] = edge
@@ -406,10 +423,16 @@ def impl_run(sc):
             tm = TransformManager(check=False)
             bvh = BoundingVolumeHierarchy(tm, "base")
             rec["init"] = []
+            shared = np.eye(4)
             for c in sc["colliders"]:
-                tm.add_transform(c["frame"], "base", np.array(c["pose"], dtype=float))
+                reg = np.array(c["pose"], dtype=float)
+                tm.add_transform(c["frame"], "base", reg)
                 pose0 = np.array(c["pose"], dtype=float)
-                if sc.get("stale_init"):
+                if sc.get("init_arrays") == "shared":
+                    pose0 = shared
+                elif sc.get("init_arrays") == "alias_tm":
+                    pose0 = reg
+                elif sc.get("stale_init"):
                     pose0 = pose0.copy()
                     pose0[:3, 3] += 0.25
                 col = make_collider(c["spec"], pose0)
@@ -454,6 +477,19 @@ def oracle(sc, rec):
         if not updated and (sc.get("stale_init") or sc.get("dup")):
             continue
         frames = ob["frames"]
+        # (0) the transform manager still holds what the scenario registered (update_collider_poses only reads it)
+        if sc["kind"] == "add":
+            want_pose = {c["frame"]: c["pose"] for c in sc["colliders"]}
+            for st in sc["steps"][:k]:
+                for f, pose in st.items():
+                    want_pose[f] = pose
+            for f in frames:
+                if f in want_pose and f in ob["tm_pose"]:
+                    d0 = np.abs(np.array(ob["tm_pose"][f], dtype=float) - np.array(want_pose[f], dtype=float)).max()
+                    if not d0 <= TOL_POSE:
+                        bad.append(("update_collider_poses:transform manager changed",
+                                    {"step": k, "frame": f, "registered": np.array(want_pose[f], dtype=float).tolist(),
+                                     "tm": ob["tm_pose"][f]}))
         # (1) poses
         for f in frames:
             A, B = np.array(ob["tm_pose"][f]), np.array(ob["col_pose"][f])
